@@ -6,11 +6,10 @@ import os
 HERE = os.path.dirname(os.path.dirname(os.path.abspath(__file__)))
 
 NA = {
-    "C01": "Whole-program claim about map_workload_to_arch: template generation, numpy enumeration, pandas joins and process pools cannot be executed on symbols; its solver-decidable lemmas are decided under C07, C09, C10, C11.",
+    "C01": "Whole-program claim about map_workload_to_arch: template generation, numpy enumeration, pandas joins and process pools cannot be executed on symbols; its solver-decidable lemmas are decided under C07, C08, C09, C10, C11.",
     "C02": "Front of a full mapper run (pandas/numba/joblib); the dominance kernel it rests on is decided under C11.",
     "C03": "Needs the returned LoopTrees of concrete mapper runs re-derived; inputs are whole specs, no symbolic domain survives pandas _numeric_cast.",
     "C04": "Compares joined pandas totals with a second concrete model run; symbols cannot pass PmappingDataframe.",
-    "C08": "Planned (DESIGN.md section 5) but not built: the per-stage pruning obligations need an invariant describing which partial tile assignments are still alive; without it the solver returns row pairs no run compares, and I could not make the check sound and quiet on the unchanged tree in the time available. Its inputs are decided under C07 (formulas), C09 (verdicts), C10 (candidates) and C11 (filter).",
     "C12": "makepareto is pandas + np.log/np.exp/np.round on float arrays; a solver model of the rounding would verify the model, not the code; the zero-tolerance dominance core is decided under C11.",
     "C13": "join_pmappings/merge_next are pandas merges over dynamically named float columns; no route keeps symbols through them.",
     "C14": "Equality of two full staged joins (pandas, thresholds, retries); only isolated lemmas are encodable and do not entail the property.",
@@ -26,6 +25,9 @@ NA = {
 
 # property -> (category, technique, level text, level note, design ref)
 CLAIMED = {
+    "C08": ("model_checking", "real pruned tile-shape enumeration per template vs z3 over the one-hot finite domain of all tile assignments (bounded SMT)",
+            "Bounded SMT per mapper template: the real make_tile_shapes runs with all its pruning; z3, over the finite domain of every perfectly factorising tile assignment (one-hot symbols, table-defined monomials of the captured objective/usage formulas), shows that no valid assignment has an objective vector that is not weakly dominated by a returned row; every returned row is checked to be the image of a valid assignment. ~120 (quick) / ~1500 (thorough) templates, rank bounds up to 64/48.",
+            "End-to-end per template (not the per-stage obligations planned first); relies on C07 for 'the captured formulas are what the exploration evaluates'; single-Einsum templates only (no reservation/fused-loop columns), perfect factorisation, no loop_bounds/max_fused_loops constraints, zero tolerances; float32 tolerance 2e-5 on objectives.", "4/C08"),
     "C10": ("model_checking", "bounded translation of the integer kernels' Python source (inspect.getsource at run time) into SMT by the guarded-merge interpreter; z3 over a symbolic argument",
             "Bounded SMT (CBMC style, unwinding assertions): _factorize(n) and _divisors(n) return exactly the divisors of n, _factorize_imperfect(n) contains the smallest shape of every achievable tile count and nothing above n, _count_factorizations(n, pattern) equals a brute-force chain count, for every n up to 64/48/36/10 (quick) and 256/128/100/14 (thorough) and every loop pattern of length <= 3/4.",
             "Kernel clauses only: get_possible_factor_sizes itself (coarseness filter, imperfect admit loop over Python sets) is not encoded and is only swept concretely against brute force (outer <= 160/600, all inner divisors) as validation; math.ceil on quotients/square roots is modelled exactly (float exactness below 2^52 assumed).", "4/C10"),
